@@ -185,7 +185,98 @@ def main():
         P.op(op, t, o)
     save("C09_known_F26", P, {"c09": [{"e": 0, "k": 1, "x": 2, "node": t}], "t": "{:n:} -> {PATTERN}", "expect_known": "F26",
                                     "expect_known_match": ["keys() fails", "explain() fails"]})
+    witnesses()
     print(len(list(OUT.glob("*.json"))), "corpus files")
+
+
+def witness(pid: str, fid: str, P: Prog, what: str, conds):
+    save(f"{pid}_witness_{fid}", P, {"known_witness": {"id": fid, "what": what, "conds": conds}})
+
+
+def witnesses():
+    """one deterministic witness per (known finding, property) pair of known_findings.json: the check
+    prints its KNOWN-FINDING line exactly when the implementation still behaves as the finding says"""
+    ok, err = (lambda i, **k: dict(op=i, status="ok", **k)), (lambda i, **k: dict(op=i, status="err", **k))
+    # F9 / C10
+    P = Prog()
+    eff = P.partial(P.fnvalue("pair"), args=[P.option("OUT")])
+    d = P.dataset([("a", P.option("A"))], effects=[eff])
+    P.op("keys", d, {"A": 1})
+    P.op("evaluate", d, {"A": 1})
+    witness("C10", "F9", P, "keys({'A': 1}) succeeds for a dataset whose effect reads Option('OUT'); evaluate (and validate) fail for the missing option OUT",
+            [ok(0), err(1, raises="KeyNotFoundError")])
+    # F10 / C04, C05, C11
+    P = Prog()
+    P.op("evaluate", P.option("S.X", dflt=P.value(7)), {"S": 5})
+    witness("C04", "F10", P, "Option('S.X', 7) on {'S': 5}: the key is absent but evaluation raises a raw TypeError instead of yielding the default",
+            [err(0, innermost="TypeError")])
+    P = Prog()
+    P.op("evaluate", P.coalesce([P.option("S.X"), P.value(1)]), {"S": 5})
+    witness("C05", "F10", P, "coalesce(Option('S.X'), 1) on {'S': 5} raises TypeError instead of yielding the second member",
+            [err(0, innermost="TypeError")])
+    P = Prog()
+    P.op("explain", P.option("S.X"), {"S": 5})
+    witness("C11", "F10", P, "Option('S.X').explain({'S': 5}) fails with a raw TypeError, not an insufficient-information error",
+            [err(0, innermost="TypeError")])
+    # F17 / C04
+    P = Prog()
+    P.raw_op(op="set_get", n=P.option("L.0"), o={"L": [1, 2]}, v=9)
+    witness("C04", "F17", P, "Option('L.0').set({'L': [1, 2]}, 9) returns {'L': {'0': 9}}, on which Option('L.0') no longer evaluates",
+            [err(0, raises="KeyNotFoundError")])
+    # F20 / C10
+    P = Prog()
+    inner = P.option("NS.B", h=1)
+    ns = P.namespace("NS", [("A", P.option("NS.A")), ("B", P._node("apply", e=inner, f=P.fnvalue("tostr"), h=1))])
+    P.op("evaluate", ns, {"NS": {"A": 1}})
+    P.op("validate", ns, {"NS": {"A": 1}})
+    witness("C10", "F20", P, "namespace with B = Option.auto() >> str: evaluate({'NS': {'A': 1}}) succeeds while validate requires NS.B",
+            [ok(0), err(1, raises="KeyNotFoundError")])
+    # F21 / C10
+    P = Prog()
+    a = P.all_options()
+    P.op("keys", a, {"A": "{Q}"})
+    P.op("evaluate", a, {"A": "{Q}"})
+    witness("C10", "F21", P, "AllOptions.keys({'A': '{Q}'}) succeeds while AllOptions({'A': '{Q}'}) fails for the missing Q",
+            [ok(0), err(1, raises="KeyNotFoundError")])
+    # F22 / C09, C10 (section embedded in a longer template), C01, C03 (re-read text names an option)
+    for pid in ("C09", "C10"):
+        P = Prog()
+        t = P.template("x{S}", [])
+        P.op("validate", t, {"S": {"a": 1}})
+        P.op("keys", t, {"S": {"a": 1}})
+        P.op("evaluate", t, {"S": {"a": 1}})
+        witness(pid, "F22", P, "Template('x{S}') on {'S': {'a': 1}}: validate and keys succeed, evaluate re-reads str(dict) as a template and fails",
+                [ok(0), ok(1), err(2, raises="KeyNotFoundError")])
+    esc = "\\{B\\}"
+    P = Prog()
+    t = P.cached(P.template("{:p:}", [("p", P.option("A"))]))
+    P.evaluate(t, {"A": esc, "B": 1})
+    P.evaluate(t, {"A": esc, "B": 2})
+    P.evaluate(t, {"A": esc, "B": 2}, cache_off=True)
+    witness("C01", "F22", P, "cached Template('{:p:}', p=Option('A')) with A='\\{B\\}': the substituted text is re-read and reads B, which keys() does not report: stale hit after B changed",
+            [ok(0, value="1"), ok(1, value="1"), ok(2, value="2")])
+    P = Prog()
+    t = P.template("{:p:}", [("p", P.option("A"))])
+    P.op("keys", t, {"A": esc, "B": 1})
+    P.op("evaluate", t, {"A": esc, "B": 1})
+    P.op("evaluate", t, {"A": esc})
+    witness("C03", "F22", P, "Template('{:p:}', p=Option('A')) with A='\\{B\\}': keys() is {'A'} but evaluation on the restriction to it fails (B is read)",
+            [ok(0, value={"$": "set", "v": ["A"]}), ok(1, value="1"), err(2, raises="KeyNotFoundError")])
+    # F26 / C01, C10
+    o = sort_json({"N": 7, "PATTERN": "part-{:n:}.csv"})
+    P = Prog()
+    t = P.cached(P.template("{:n:} -> {PATTERN}", [("n", P.option("N"))]))
+    P.evaluate(t, o)
+    P.evaluate(t, o, cache_off=True)
+    witness("C01", "F26", P, "cached Template whose option value refers to a {:param:}: the cached evaluation fails in keys() (ValueError) where the uncached one succeeds",
+            [err(0, innermost="ValueError"), ok(1, value="7 -> part-7.csv")])
+    P = Prog()
+    t = P.template("{:n:} -> {PATTERN}", [("n", P.option("N"))])
+    P.op("evaluate", t, o)
+    P.op("keys", t, o)
+    P.op("validate", t, o)
+    witness("C10", "F26", P, "Template whose option value refers to a {:param:}: evaluate succeeds while keys() raises ValueError and validate() KeyNotFoundError(':n:')",
+            [ok(0, value="7 -> part-7.csv"), err(1, innermost="ValueError"), err(2, raises="KeyNotFoundError")])
 
 
 if __name__ == "__main__":
